@@ -5,6 +5,7 @@ import (
 	"errors"
 	"fmt"
 	"io"
+	"sort"
 	"strings"
 
 	"github.com/cloudwego/eino/components/model"
@@ -198,8 +199,11 @@ func drawReact(t *kernel.Tape) *reactPlan {
 	default:
 		p.maxStep = 2 + t.Plan(8)
 	}
-	if t.PlanBool(35) {
+	if t.PlanBool(40) {
 		p.direct[p.specs[t.Plan(len(p.specs))].Name] = struct{}{}
+		if t.PlanBool(50) {
+			p.direct[p.specs[t.Plan(len(p.specs))].Name] = struct{}{} // possibly a second return-directly tool
+		}
 	}
 	p.strict = t.PlanBool(50)
 	if turns > 0 && t.PlanBool(10) {
@@ -470,6 +474,7 @@ func keys(m map[string]struct{}) []string {
 	for k := range m {
 		out = append(out, k)
 	}
+	sort.Strings(out)
 	return out
 }
 
